@@ -44,7 +44,7 @@ func newRtCtx(c *Ctx) *rtCtx {
 	for _, l := range r.loops {
 		for b := range l.Blocks {
 			for _, in := range b.Instrs {
-				if call, ok := in.(*ssa.Call); ok && staticCallee(call) == r.parseTU {
+				if call, ok := in.(*ssa.Call); ok && (staticCallee(call) == r.parseTU || callsDirectly(staticCallee(call), r.parseTU)) {
 					if r.entity == nil || len(l.Blocks) < len(r.entity.Blocks) {
 						r.entity = l
 					}
@@ -105,6 +105,65 @@ func runMergeRules(c *Ctx) {
 	// --- M2: mergeTrip / mergeVehicle: id always, everything only for the entity's own version
 	for _, m := range []*ssa.Function{r.mergeTrip, r.mergeVeh} {
 		mergeShape(c, m)
+	}
+	// --- M0: when the entity parsers are called from a per-entity dispatcher that hands their results back in a struct,
+	// that struct carries every result of the parser that was called (a result left out never reaches the merges below)
+	for _, g := range c.regionOf(fn) {
+		if !callsDirectly(g, r.parseTU) || g == fn {
+			continue
+		}
+		for _, b := range g.Blocks {
+			for _, in := range b.Instrs {
+				pc, ok := in.(*ssa.Call)
+				if !ok || (staticCallee(pc) != r.parseTU && staticCallee(pc) != r.parseVeh && staticCallee(pc) != r.parseAlert) {
+					continue
+				}
+				res := staticCallee(pc).Signature.Results()
+				var dropped []string
+				for i := 0; i < res.Len(); i++ {
+					if bt, isB := res.At(i).Type().Underlying().(*types.Basic); isB && bt.Kind() == types.Bool {
+						continue
+					}
+					kept := false
+					for _, ref := range *pc.Referrers() {
+						ex, isEx := ref.(*ssa.Extract)
+						if !isEx || ex.Index != i || ex.Referrers() == nil {
+							continue
+						}
+						for _, r2 := range *ex.Referrers() {
+							st, isSt := r2.(*ssa.Store)
+							if !isSt || st.Val != ssa.Value(ex) {
+								continue
+							}
+							fa, isFA := st.Addr.(*ssa.FieldAddr)
+							if !isFA {
+								continue
+							}
+							al, isAl := fa.X.(*ssa.Alloc)
+							if !isAl {
+								continue
+							}
+							// the struct is what a return of this path hands back
+							for _, rb := range g.Blocks {
+								ret, isRet := rb.Instrs[len(rb.Instrs)-1].(*ssa.Return)
+								if !isRet || !(b == rb || b.Dominates(rb)) {
+									continue
+								}
+								for _, rv := range ret.Results {
+									if ld, isLd := rv.(*ssa.UnOp); isLd && ld.Op == token.MUL && ld.X == ssa.Value(al) {
+										kept = true
+									}
+								}
+							}
+						}
+					}
+					if !kept {
+						dropped = append(dropped, fmt.Sprintf("result #%d (%s)", i, shortType(res.At(i).Type())))
+					}
+				}
+				c.Check(len(dropped) == 0, "MERGE", shortName(g), "the dispatcher hands back everything "+staticCallee(pc).Name()+" returned", p.ipos(pc), "every result is stored into the struct that the path returns", "the per-entity dispatcher drops "+strings.Join(dropped, ", ")+" of "+staticCallee(pc).Name()+": it never reaches the accumulators")
+			}
+		}
 	}
 	// --- M1: every parsed trip / id-bearing vehicle / alert trip is merged into its accumulator
 	type mergeSite struct {
@@ -426,7 +485,9 @@ func runMergeRules(c *Ctx) {
 										if st, ok := r2.(*ssa.Store); ok {
 											veh = st.Val
 											if ld, isLd := veh.(*ssa.UnOp); isLd && ld.Op == token.MUL {
-												veh = ld.X // appended by value: *vehicle
+												if _, isPtr := veh.Type().Underlying().(*types.Pointer); !isPtr {
+													veh = ld.X // appended by value: *vehicle
+												}
 											}
 										}
 									}
@@ -649,6 +710,10 @@ func checkMergedOnAllPaths(r *rtCtx, merge *ssa.Function, typ, what string) {
 				}
 				if phi, isPhi := arg.(*ssa.Phi); isPhi && r.entity.Blocks[phi.Block()] {
 					parsed = phi
+				}
+				// ... or a field of the struct a per-entity dispatcher returned (`parsed.trip`), read once in the loop
+				if fromDispatcher(r, arg) {
+					parsed = arg
 				}
 			}
 		}
@@ -909,6 +974,9 @@ func runLinkRules(c *Ctx) {
 			if tn != "gtfs.Trip" && tn != "gtfs.Vehicle" {
 				continue
 			}
+			if _, isPtr := st.Val.Type().Underlying().(*types.Pointer); isPtr {
+				continue // a pointer kept in a list of pointers is the object itself, not a copy
+			}
 			if ld, isLoad := st.Val.(*ssa.UnOp); !isLoad || ld.Op != token.MUL {
 				continue
 			}
@@ -1127,6 +1195,9 @@ func runLinkRules(c *Ctx) {
 			if bo, ok := ce.Cond.(*ssa.BinOp); ok && isNilConst(bo.Y) && ((bo.Op == token.NEQ && ce.Val) || (bo.Op == token.EQL && !ce.Val)) {
 				if phi, ok := bo.X.(*ssa.Phi); ok && (typeName(phi.Type()) == "gtfs.Trip" || typeName(phi.Type()) == "gtfs.Vehicle") {
 					nn[phi] = true
+				}
+				if fromDispatcher(r, bo.X) && (typeName(bo.X.Type()) == "gtfs.Trip" || typeName(bo.X.Type()) == "gtfs.Vehicle") {
+					nn[bo.X] = true
 				}
 			}
 		}
@@ -1850,4 +1921,59 @@ func mergedArg(c *Ctx, call *ssa.Call, merge *ssa.Function) ssa.Value {
 		return nil
 	}
 	return call.Call.Args[k]
+}
+
+// callsDirectly: h is a loop-free function of the module with a call of callee in its body (a per-entity dispatcher
+// that the entity loop calls).
+func callsDirectly(h, callee *ssa.Function) bool {
+	if h == nil || h == callee || len(h.Blocks) == 0 || len(naturalLoops(h)) > 0 || fnPkgPath(h) != fnPkgPath(callee) {
+		return false
+	}
+	for _, b := range h.Blocks {
+		for _, in := range b.Instrs {
+			if call, ok := in.(*ssa.Call); ok && staticCallee(call) == callee {
+				return true
+			}
+		}
+	}
+	return false
+}
+
+// fromDispatcher: v is, inside the entity loop, a field of the struct value that a per-entity dispatcher (a loop-free
+// helper that calls the entity parsers) returned: a load of a field of the local variable holding that result, or a
+// field of the result itself.
+func fromDispatcher(r *rtCtx, v ssa.Value) bool {
+	in, ok := v.(ssa.Instruction)
+	if !ok || !r.entity.Blocks[in.Block()] {
+		return false
+	}
+	var src ssa.Value
+	switch x := v.(type) {
+	case *ssa.UnOp:
+		if x.Op != token.MUL {
+			return false
+		}
+		fa, isFA := x.X.(*ssa.FieldAddr)
+		if !isFA {
+			return false
+		}
+		al, isAl := fa.X.(*ssa.Alloc)
+		if !isAl {
+			return false
+		}
+		vals := cellStores(al)
+		if len(vals) != 1 {
+			return false
+		}
+		src = vals[0]
+	case *ssa.Field:
+		src = x.X
+	default:
+		return false
+	}
+	if ex, isEx := src.(*ssa.Extract); isEx {
+		src = ex.Tuple
+	}
+	call, isCall := src.(*ssa.Call)
+	return isCall && callsDirectly(staticCallee(call), r.parseTU)
 }
